@@ -60,6 +60,7 @@ var gens = []generator{
 	{file: "CliSplit.lean", src: "cmd/gts/split.go (the per-record step)", run: genCliSplit},
 	{file: "CliRotate.lean", src: "cmd/gts/rotate.go (the per-record step)", run: genCliRotate},
 	{file: "CliExtract.lean", src: "cmd/gts/extract.go (containsRegion, the per-record step)", run: genCliExtract},
+	{file: "Locator.lean", src: "locator.go (the locator constructors, tryLocation, AsLocator)", run: genLocator},
 }
 
 func writeIfChanged(path string, content []byte) (bool, error) {
